@@ -3,26 +3,34 @@
 
    [world] (Model/Registry.v) = the process-wide node counter + the outcomes of
    the random number generator.  The instructions whose semantics reads it are
-   listed BY NAME here, one list per family; a further family (the RAND
-   instructions of Model/IRand.v) is added by appending its list to
-   [world_reading_names] — every theorem of Proofs/Determinism*.v is stated over
-   [world_reading_names] and re-checks itself against the registry table. *)
+   listed BY NAME here, one list per family (a further family is added by
+   appending its list to [world_reading_names]): every theorem of
+   Proofs/Determinism*.v is stated over [world_reading_names] and re-checks itself
+   against the registry table. *)
 From Coq Require Import ZArith String List Bool.
-From PushModel Require Import Base.Sx Base.Machine Base.F32 Model.Item Model.GraphT Model.State Model.InstrBase.
+From PushModel Require Import Base.Sx Base.Machine Base.F32 Model.Item Model.GraphT Model.State Model.InstrBase
+  Model.RegistryRand.
 Import ListNotations.
 Open Scope string_scope.
 
 (* GRAPH.NODE*ADD draws the node id from the process-wide counter (graph.rs:11, 22) *)
 Definition graph_world_names : list string := [ "GRAPH.NODE*ADD" ].
-(* the RAND family: none registered in the model's table yet (append here) *)
-Definition rand_world_names : list string := [ ].
+(* the RAND family consumes the outcomes of the random number generator (Model/IRand.v) *)
+Definition rand_world_names : list string := rand_names.
 
 Definition world_reading_names : list string := graph_world_names ++ rand_world_names.
 Definition world_reading (n : string) : bool := existsb (String.eqb n) world_reading_names.
 
+(* membership of a literal name in a list of literal names *)
+Definition lit_in (names : list string) (n : string) : bool := existsb (String.eqb n) names.
+
 (* the instruction names an instruction can put on EXEC by itself (re-arming) *)
 Definition rearm_names : list string :=
   [ "CODE.POP"; "EXEC.Y"; "EXEC.LOOP"; "CODE.LOOP"; "INDEX.INCREASE"; "INTVECTOR.LOOP" ].
+
+(* CODE.RAND builds random code from the names of the instruction cache: the one
+   instruction that can put an instruction on a stack that was nowhere in the state *)
+Definition closure_exceptions : list string := [ "CODE.RAND" ].
 
 (* membership of a code-point name in a list of literal names *)
 Definition name_in (names : list string) (n : str) : bool := existsb (fun m => str_eqb n (s2l m)) names.
